@@ -194,23 +194,25 @@ def requestPrepend : List Property :=
 def upsertPrepend : List Property :=
   [.mk b!"upsert" true false (metaField b!"j5.messaging.v1" b!"UpsertMetadata")]
 
-/-- `topicRef.accept` -/
-def convTopic (c : Ctx) (t : Topic) : List Step :=
+/-- `topicRef.accept`: the `topicNode`s a topic declaration stands for (one, or two for reqres) -/
+def topicNodes (t : Topic) : List TopicNode :=
   match t.type with
   | .publish msgs =>
-    acceptTopic c { name := t.name, msgs := msgs, topicName := toSnake t.name, role := .publish }
+    [{ name := t.name, msgs := msgs, topicName := toSnake t.name, role := .publish }]
   | .reqres reqs reps =>
-    acceptTopic c { name := t.name ++ b!"Request", msgs := reqs, topicName := toSnake t.name,
-                    role := .request, prepend := requestPrepend } ++
-    acceptTopic c { name := t.name ++ b!"Reply", msgs := reps, topicName := toSnake t.name,
-                    role := .reply, prepend := requestPrepend }
+    [ { name := t.name ++ b!"Request", msgs := reqs, topicName := toSnake t.name,
+        role := .request, prepend := requestPrepend },
+      { name := t.name ++ b!"Reply", msgs := reps, topicName := toSnake t.name,
+        role := .reply, prepend := requestPrepend } ]
   | .event entityName msg =>
-    acceptTopic c { name := t.name, msgs := [msg], topicName := toSnake t.name, role := .event,
-                    entityName := entityName }
+    [{ name := t.name, msgs := [msg], topicName := toSnake t.name, role := .event,
+       entityName := entityName }]
   | .upsert entityName msg =>
-    let msg' : TopicMsg := { msg with name := some (msg.name.getD t.name) }
-    acceptTopic c { name := t.name, msgs := [msg'], topicName := toSnake t.name, role := .upsert,
-                    entityName := entityName, prepend := upsertPrepend }
+    [{ name := t.name, msgs := [{ msg with name := some (msg.name.getD t.name) }],
+       topicName := toSnake t.name, role := .upsert, entityName := entityName,
+       prepend := upsertPrepend }]
+
+def convTopic (c : Ctx) (t : Topic) : List Step := (topicNodes t).flatMap (acceptTopic c)
 
 /-- `TopicFileNode.Accept`: sub-file first -/
 def convTopicFile (c : Ctx) (topics : List Topic) : List Step :=
